@@ -354,7 +354,8 @@ class Folder(FileSystemItemABC):
 
         if self.scan_countdown <= 0:
             # scan one file per timestep
-            self.scan_countdown = self.scan_duration
+            # the timestep completes a scan on the tick its countdown reaches 0: a duration of 0 completes on the next tick
+            self.scan_countdown = max(self.scan_duration, 1)
             self.sys_log.info(f"Scanning folder {self.name} (id: {self.uuid})")
         else:
             # scan already in progress
@@ -380,7 +381,7 @@ class Folder(FileSystemItemABC):
 
         if self.red_scan_countdown <= 0:
             # scan one file per timestep
-            self.red_scan_countdown = self.red_scan_duration
+            self.red_scan_countdown = max(self.red_scan_duration, 1)
             self.sys_log.info(f"Folder revealed to red agent: {self.name} (id: {self.uuid})")
         else:
             # scan already in progress
@@ -451,7 +452,7 @@ class Folder(FileSystemItemABC):
             self.deleted = False
 
         if self.restore_countdown <= 0:
-            self.restore_countdown = self.restore_duration
+            self.restore_countdown = max(self.restore_duration, 1)
             self.health_status = FileSystemItemHealthStatus.RESTORING
             self.sys_log.info(f"Restoring folder: {self.name} (id: {self.uuid})")
         else:
